@@ -72,7 +72,7 @@ fn eqk<E: Elem>(what: &str, got: &[u64], want: &[u64]) -> Result<(), String> {
     Ok(())
 }
 
-impl<E: Elem + Clone + Default> Pool<E> {
+impl<E: Elem + Clone + Default + std::fmt::Debug> Pool<E> {
     fn new() -> Self {
         Pool { arrs: vec![], its: vec![], nests: vec![], vecs: vec![], slices: vec![], loose: vec![], trace: vec![], steps: 0, ops_seen: Default::default() }
     }
@@ -101,6 +101,19 @@ impl<E: Elem + Clone + Default> Pool<E> {
         for (e, k) in &self.loose {
             if E::KEYED && e.key() != *k {
                 return Err("ModelMismatch: element handed to the caller changed identity".into());
+            }
+        }
+        // formatting an object looks at its elements (each element's Debug is an observation in
+        // the ledger): a partially consumed iterator must only look at what it still holds
+        if self.steps % 4 == 0 {
+            for (it, s) in self.its.iter() {
+                let txt = it_debug(it);
+                if E::KEYED && !s.is_empty() && txt.len() < s.len() {
+                    return Err("ModelMismatch: Debug of an iterator shows fewer elements than it holds".into());
+                }
+            }
+            for (a, _) in self.arrs.iter().take(2) {
+                let _ = arr_debug(a);
             }
         }
         Ok(())
@@ -814,7 +827,7 @@ impl<E: Elem + Clone + Default> Pool<E> {
     }
 }
 
-fn run_histories<E: Elem + Clone + Default>(st: &mut Stats, seed: u64, count: u64) {
+fn run_histories<E: Elem + Clone + Default + std::fmt::Debug>(st: &mut Stats, seed: u64, count: u64) {
     for h in 0..count {
         let Some(desc) = st.select(|| format!("C03 history {} seed={seed} index={h}", E::NAME)) else { continue };
         ledger::begin_case();
